@@ -12805,8 +12805,12 @@ class Function_Stmt(StmtBase, ScopingRegionMixin):  # R1224
     @staticmethod
     def match(string):
         line, repmap = string_replace_map(string)
-        m = pattern.function.search(line)
-        if m is None:
+        # The keyword stands outside parentheses (the name of a derived
+        # type in the prefix may contain 'function').
+        for m in re.finditer(r"FUNCTION", line, re.I):
+            if line.count("(", 0, m.start()) == line.count(")", 0, m.start()):
+                break
+        else:
             return
         prefix = line[: m.start()].rstrip() or None
         if prefix is not None:
